@@ -218,9 +218,13 @@ def write_harness2(expansion):
     _write_if_changed(os.path.join(src, "util.rs"), open(os.path.join(vh, "util.rs")).read())
     _write_if_changed(os.path.join(src, "frames.rs"), XF.derive_frames(open(os.path.join(vh, "frames.rs")).read(), expansion))
     disp = os.path.join(vh, "generated", "login_dispatch.rs")
-    if not os.path.exists(disp):
+    if not os.path.exists(disp) or not os.path.exists(os.path.join(vh, "generated", "expect_dispatch.rs")):
         subprocess.run(["python3", "-m", "tools.gen_dispatch"], cwd=C.VERIF, check=True)
     _write_if_changed(os.path.join(src, "generated", "login_dispatch.rs"), open(disp).read())
+    xd = open(os.path.join(vh, "generated", "expect_dispatch.rs")).read()
+    xd = "\n".join(l for l in xd.splitlines() if not any(re.match(r'\s*\("%s",' % o, l) for o in others))
+    xd = xd.replace("use wow_world_messages::{tbc, vanilla, wrath};", "use wow_world_messages::%s;" % expansion)
+    _write_if_changed(os.path.join(src, "generated", "expect_dispatch.rs"), xd + "\n")
     _write_if_changed(os.path.join(src, "main.rs"), """//! @generated by tools/checks/c19.py - reduced-feature twin of `vh codec` (C19 differential).
 mod codec;
 mod frames;
